@@ -55,6 +55,19 @@ func (cs ClientState) Initialize(
 	store sdk.KVStore,
 	state exported.ConsensusState,
 ) error {
+	return checkConsensusState(state)
+}
+
+// checkConsensusState rejects the consensus state of another client type: the client keeper would
+// store it under the (zero) height of the TSS client
+func checkConsensusState(state exported.ConsensusState) error {
+	if _, ok := state.(*ConsensusState); !ok {
+		return sdkerrors.Wrapf(
+			types.ErrInvalidConsensus,
+			"invalid initial consensus state. expected type: %T, got: %T",
+			&ConsensusState{}, state,
+		)
+	}
 	return nil
 }
 
@@ -73,7 +86,7 @@ func (cs ClientState) UpgradeState(
 	store sdk.KVStore,
 	state exported.ConsensusState,
 ) error {
-	return nil
+	return checkConsensusState(state)
 }
 
 func (cs ClientState) ExportMetadata(store sdk.KVStore) []exported.GenesisMetadata {
